@@ -122,7 +122,7 @@ def run(ctx):
                 nontrivial += 1
         if len(samples) < 3 and e["wf"] and len(data) < 400:
             samples.append(dict(encoding=gen_files.to_line(segs), file_hex=e["file"]))
-        if len(violations) >= 5 or len(disagreements) >= 20:
+        if len(violations) >= 5 or len(disagreements) >= ctx.dis_limit:
             break
         if ctx.tier == "quick" and ctx.elapsed() > 45:
             ctx.notes.append("stopped at %d generated files (time budget)" % i)
